@@ -1,2 +1,3 @@
-(* C07 uses the shared stream runner *)
-From EN Require Export Run.Stream.
+(* C07 uses the stream runner extended with the raw-JSON / file-based framers (Run/C06.v delegates kinds 0..3 to
+   Run/Stream.v unchanged) *)
+From EN Require Export Run.C06.
